@@ -467,7 +467,7 @@ func TestVP_C31_frame_roundtrip(t *testing.T) {
 		c.Require("size>4MiB")
 	}
 	c.Assume("loopback UDP (127.0.0.1) is available to the test process; transport I/O errors and liveness-guard expiries are reported as inconclusive, not as violations")
-	kit.SetChecks(kit.N(40, 480))
+	kit.SetChecks(kit.N(40, 2400))
 	troubled := false
 	rapid.Check(t, func(rt *rapid.T) {
 		if troubled {
